@@ -13,7 +13,7 @@ def parseTags (s : String) : Option Tags :=
 
 def parseMeta (ver cs ts : String) : Option Meta :=
   match ver.toInt?, cs.toInt? with
-  | some v, some c => some { hasTimestamp := ts = "1", version := v, changeset := c }
+  | some v, some c => some { hasTimestamp := ts = "1" ∨ ts = "2" ∨ ts = "3" ∨ ts = "4", version := v, changeset := c }
   | _, _ => none
 
 def parseWayNode (s : String) : Option WayNode :=
